@@ -859,6 +859,82 @@ func (e *Engine) SweepConcurrency(prop string) {
 	e.notes = appendUnique(e.notes, fmt.Sprintf("rely sweep: %d send statements / protected-field accesses in the package are all inside functions under contract", checked))
 }
 
+// SweepCallSites: a contract with `callsite requires` clauses puts an obligation at every call in verified code; a
+// call of the same function from a function of the contract's package (or, for an interface contract, of the package
+// that declares the interface) that is *not* under contract would escape it - such a call is a failed obligation.
+func (e *Engine) SweepCallSites(prop string) {
+	under := map[string]bool{}
+	for _, c := range e.ContractsFor(prop) {
+		under[contractKey(c.Pkg, c.Recv, strings.SplitN(c.Name, "$", 2)[0])] = true
+	}
+	n := 0
+	for _, c := range e.ContractsFor(prop) {
+		active := false
+		for _, cl := range c.CallSite {
+			if e.applies(cl) {
+				active = true
+			}
+		}
+		if !active {
+			continue
+		}
+		pkg := e.pkgs[c.Pkg]
+		if pkg == nil || !strings.HasPrefix(c.Pkg, modulePath) {
+			continue
+		}
+		for _, file := range pkg.Syntax {
+			if strings.HasSuffix(pkg.Fset.Position(file.Pos()).Filename, "_test.go") {
+				continue
+			}
+			for _, d := range file.Decls {
+				fd, ok := d.(*ast.FuncDecl)
+				if !ok || fd.Body == nil {
+					continue
+				}
+				recv := ""
+				if fd.Recv != nil && len(fd.Recv.List) == 1 {
+					t := fd.Recv.List[0].Type
+					if st, ok := t.(*ast.StarExpr); ok {
+						t = st.X
+					}
+					if ix, ok := t.(*ast.IndexExpr); ok {
+						t = ix.X
+					}
+					if id, ok := t.(*ast.Ident); ok {
+						recv = id.Name
+					}
+				}
+				fn := contractKey(c.Pkg, recv, fd.Name.Name)
+				if under[fn] {
+					continue
+				}
+				ast.Inspect(fd.Body, func(nd ast.Node) bool {
+					call, ok := nd.(*ast.CallExpr)
+					if !ok {
+						return true
+					}
+					f := calleeFunc(pkg.TypesInfo, call)
+					if f == nil || f.Pkg() == nil {
+						return true
+					}
+					cc := e.contractForFunc(f)
+					if cc == nil {
+						cc = e.ifaceContract(f)
+					}
+					if cc != c {
+						return true
+					}
+					n++
+					p := pkg.Fset.Position(call.Pos())
+					e.addObl(&Obligation{Name: fmt.Sprintf("%s#callsite-sweep.%d", fn, n), Kind: "site", Func: fn, Goal: False, Verdict: "sat", Solver: "engine",
+						Pos: fmt.Sprintf("%s:%d", p.Filename, p.Line), Note: "call of " + shortName(c) + " in " + fd.Name.Name + ", which is not under contract: the call-site clause (" + c.CallSite[0].Text + ") is not proved here"})
+					return true
+				})
+			}
+		}
+	}
+}
+
 // SweepGlobals (C14): the confinement obligations are generated inside the functions under contract. A function of the
 // render-path packages that is *not* under contract (a new helper, say) would escape them, so: every use of a
 // package-level variable that is assigned anywhere after initialisation (element writes, field writes and & included)
